@@ -39,7 +39,8 @@ class NextIdLemmas(Lemma):
     """bit-vector lemmas behind MiniShard's append order (symbolic bit counts, full 64-bit ids)"""
     name = "lemma:next-id-enumerates-the-(shard,minishard)-class-in-increasing-order"
     props = ("C05", "C04")
-    timeout_ms = 120000
+    timeout_ms = 360000          # slowest obligation ~45 s idle
+    wall_budget_s = 1800
 
     def run(self, c, cfg):
         p, s, m = _bits(c)
@@ -72,7 +73,8 @@ class NextIdSuccessor(Lemma):
     """successor lemma of the enumeration (separate unit: the slowest of the bit-vector lemmas)"""
     name = "lemma:no-id-of-the-class-lies-between-next-id(t)-and-next-id(t+1)"
     props = ("C05", "C04")
-    timeout_ms = 240000
+    timeout_ms = 600000          # ~100 s on an idle machine: a wide margin so that the verdict does not flip under load
+    wall_budget_s = 1800
 
     def run(self, c, cfg):
         p, s, m = _bits(c)
